@@ -35,8 +35,8 @@ func c15Key(sig uint16, low uint32, mid uint16) uint64 {
 }
 
 var c15Keys = []uint64{
-	c15Key(0xA001, 0x00000010, 0),      // A: bucket 0 on every table
-	c15Key(0xB002, 0x00000020, 1),      // B..E: same bucket as A, distinct signatures
+	c15Key(0xA001, 0x00000010, 0), // A: bucket 0 on every table
+	c15Key(0xB002, 0x00000020, 1), // B..E: same bucket as A, distinct signatures
 	c15Key(0xC003, 0x00000030, 2),
 	c15Key(0xD004, 0x00000040, 3),
 	c15Key(0xE005, 0x00000050, 4),
